@@ -8,6 +8,7 @@
 -/
 import KcacheModel.Ctrl
 import KcacheModel.Proofs.Ctrl
+import KcacheModel.Proofs.CtrlWitness
 namespace KC.C03
 open KC AL
 
@@ -102,6 +103,16 @@ theorem list_always_accepted (w : CW K O) (hrun : w.running = true) (j : Nat) (h
   ⟨hrun, hj, hs⟩
 
 end
+/-! non-vacuity of `converges_after_one_relist`: the run of Proofs/CtrlWitness.lean is reachable and ready, its
+cache is stale (the update was lost to an overflow), a list of the current state is enabled there — and the
+cache afterwards holds the server's object -/
+example : CReach CtrlWitness.kk CtrlWitness.vv CtrlWitness.aa CtrlWitness.w6 ∧
+    CtrlWitness.w6.enabled CtrlWitness.kk CtrlWitness.vv (.listApplied CtrlWitness.w6.hist.length [(1, 2)]) ∧
+    lookup 1 CtrlWitness.w6.items = some ⟨1, (1, 1)⟩ ∧
+    lookup 1 (CtrlWitness.w6.step CtrlWitness.kk CtrlWitness.vv CtrlWitness.aa
+      (.listApplied CtrlWitness.w6.hist.length [(1, 2)])).items = some ⟨2, (1, 2)⟩ :=
+  ⟨CtrlWitness.w6_reach, ⟨rfl, by decide, CtrlWitness.snap2⟩, by decide, by decide⟩
+
 end KC.C03
 
 #print axioms KC.C03.ctrl_cut_invariant
